@@ -63,6 +63,7 @@ var unexpectedFiles = []string{
 	"package pb\n\ntype I interface {\n\tM() // @tag valid:\"method\"\n}\n\ntype J = struct {\n\tA int // @tag valid:\"alias\"\n}\n",
 	"package pb\n\ntype K struct {\n\tA, B, C int // @tag valid:\"multi\" json:\"abc\"\n\tD func() // @tag\n\tE chan int // @tag \n}\n",
 	"package pb\n",
+	"package pb\n\ntype N struct {\n\tName string //nolint:lll @tag valid:\"required\"\n\tAge int //export Age @tag valid:\"to=1~3\"\n\tOk bool `json:\"ok\"` //nolint:lll // @tag valid:\"x\"\n}\n",
 	"package pb\n\ntype L struct {\n\tA int `json:\"a\"` /* @tag valid:\"x\" */ // second comment @tag valid:\"y\"\n}\n",
 }
 
